@@ -11,6 +11,7 @@ import (
 	"context"
 	"errors"
 	"fmt"
+	"os"
 	"sort"
 	"strings"
 	"sync"
@@ -223,6 +224,13 @@ func (s *simConn) serve(call hrpc.Call) {
 	}
 	c.mu.Lock()
 	c.seq++
+	if len(c.serves) > 150000 {
+		// a request storm (a retry loop without back-off in the client): no scenario comes near this
+		// number of requests. Report it and stop this process before it eats the machine's memory.
+		fmt.Printf("sim storm served=%d\n", len(c.serves))
+		os.Stdout.Sync()
+		os.Exit(0)
+	}
 	sv := simServe{at: time.Now(), seq: c.seq, addr: s.addr, conn: s.id, table: string(call.Table()), key: call.Key(), tag: -1,
 		afterEnd: c.closedAt != 0}
 	if t, ok := simRows.Load(string(call.Key())); ok {
